@@ -117,8 +117,10 @@ Form(enc, it) ==
     [] it.type = "Bitmask" -> [lex |-> "mask", sep |-> IF enc = "json" THEN "|" ELSE " ", tokens |-> MaskTokens(it.v), mtag |-> it.v.mtag]
 
 \* forms written elsewhere that denote the same value: the reader must decode them to the same item
+\* (XML's integer types - xsd:int and the like - allow leading zeros: "010" is ten, never eight)
 Foreign(enc, it) ==
-  CASE it.type = "LongInteger" -> IF enc = "json" THEN {[lex |-> "hex64", int64 |-> it.v]} ELSE {}
+  CASE it.type = "LongInteger" -> IF enc = "json" THEN {[lex |-> "hex64", int64 |-> it.v]} ELSE {[lex |-> "dec-padded", zeros |-> z] : z \in {1, 2}}
+    [] it.type \in {"Integer", "Interval"} -> IF enc = "xml" THEN {[lex |-> "dec-padded", zeros |-> z] : z \in {1, 2}} ELSE {}
     [] it.type = "BigInteger" -> {[lex |-> "twos-complement-hex", big |-> it.v, prefix |-> enc = "json", pad |-> p] : p \in {1, 8, 16}}
     [] it.type = "Enumeration" -> {[lex |-> "hex32", uint32 |-> it.v.num]}
     [] it.type = "ByteString" -> {[lex |-> "hex-bytes-lower", class |-> it.v]}
